@@ -218,6 +218,56 @@ Section Model.
       | (_, Err e) => [Err e]
       end
     end.
+  (* ---------------------------------------------------------------- StreamReader *)
+  (* codecs.StreamReader.read (CPython) keeps the not yet consumed bytes, appends what the stream delivers and calls
+     the css class's stateless  decode(data)  -> (text, consumed); there is no `final`.  The css decode answers
+     ("", 0) = "call me again with more" until the encoding is known AND _fixencoding has an answer, creating a fresh
+     underlying reader every time; then it keeps that reader and delegates (l.~503-525).
+     The underlying reader is modelled by the incremental machine dstep with final = False: its state carries the
+     bytes CPython keeps in bytebuffer.  An empty `data` is never decoded (`if not data: break`). *)
+  Record rstate := mkR { rs_dec : option dst; rs_enc : option str; rs_force : bool; rs_bytes : str }.
+
+  Definition sr_init (encoding : option str) (force : bool) : rstate := mkR None encoding force [].
+
+  Definition sr_step (st : rstate) (newdata : str) : rstate * res str :=
+    match rs_dec st with
+    | Some d => let '(d', r) := dstep d newdata false in (mkR (Some d') (rs_enc st) (rs_force st) [], r)
+    | None =>
+      match rs_bytes st ++ newdata with
+      | [] => (st, Ok [])
+      | data =>
+        match pick_encoding (rs_enc st) (rs_force st) data false with
+        | PBuffer => (mkR None (rs_enc st) (rs_force st) data, Ok [])
+        | PFail e => (st, Err e)
+        | PEnc e =>
+          match dinit e with
+          | None => (mkR None (Some e) (rs_force st) data, Err ELookup)
+          | Some d0 =>
+            let '(d', r) := dstep d0 data false in
+            match r with
+            | Err x => (mkR None (Some e) (rs_force st) data, Err x)
+            | Ok o =>
+              match fixencoding o (nosig e) false with
+              | None => (mkR None (Some e) (rs_force st) data, Ok [])      (* the reader is thrown away *)
+              | Some t => (mkR (Some d') (Some e) (rs_force st) [], Ok t)
+              end
+            end
+          end
+        end
+      end
+    end.
+
+  (* one read(): the stream delivers the (non-empty) chunks, then b"" -- the result of every decode call *)
+  Fixpoint sr_trace (st : rstate) (chunks : list str) : list (res str) :=
+    match chunks with
+    | [] => [snd (sr_step st [])]
+    | c :: r =>
+      match sr_step st c with
+      | (st', Ok o) => Ok o :: sr_trace st' r
+      | (_, Err e) => [Err e]
+      end
+    end.
+
   (* StreamWriter.encode (l.~455-485) is a copy of IncrementalEncoder.encode that is never told about the end of the
      text: every write is enc_step with final = False.  The run of a StreamWriter, call by call: *)
   Fixpoint enc_trace_nf (st : estate) (chunks : list str) : list (res str) :=
